@@ -18,6 +18,8 @@ void vstl_oob(void);
 void vstl_access(const void* container);
 }
 #define vassert(c) vassert_(!!(c), __LINE__)
+// assertion with an explicit, stable identifier (used where known-findings.txt refers to the assertion: line numbers shift with edits)
+#define vassert_id(c, id) vassert_(!!(c), id)
 #define vassume(c) vassume_(!!(c))
 #define vreach() vreach_(__LINE__)
 // Typed storage whose constructor is NOT run: declared extern here, defined zero-initialised by ir2c (generated C)
